@@ -13,6 +13,34 @@ CLAIMED = {
             "exhaustive over every text of <= 3 (quick) / 4 (thorough) characters from 20 classes covering every lexer branch and UTF-8 width, with the lexer's token, comment and error spans compared to the specification; token sequences of length <= 2/3 exhaustively; seeded longer texts, token-boundary truncations and mutations of the repository's 540 Garden files",
             "beyond the exhaustive bound the exploration is seeded, not complete; nesting deeper than 150 levels overflows the parser's stack (recorded known finding)",
             "DESIGN.md §6 C01"),
+    "C16": (MC, "TLC evaluates Ref.tla on generated, fully annotated programs with injected mistakes and classifies each failure kind; the real checker judges the same programs and an accepted program must not fail type-relatedly (confirmed by the real run)",
+            "seeded programs (error rate 0.35) whose failure kind the reference semantics determines (TypeError, Arity, ExpectedFunction, MethodError, NoCase, NoSuchVariable, NotBound are type-related); every program `check` accepts without errors must not fail with one of them",
+            "bounded by the generator's type-directed shapes; local lets are unannotated (inferred)",
+            "DESIGN.md §6 C16"),
+    "C17": (MC, "TLC enumerates Syntax.tla tree families and prints their canonical text; hook `ast` compares the parser's tree (and the lexer's comment list) before and after `format` on canonical and re-laid-out texts",
+            "every ExprTrees(1) / StmtTrees(1|2) text, seeded generator programs printed by the specification and the repository's files, each also with seeded layout changes (whitespace, newlines, comments, multi-line / non-ASCII string literals): the formatted text must parse to the same tree with the same comments",
+            "for canonical texts the tree is the specification's S(t) (C33); for re-laid-out inputs the reference is the parser's tree of the input; optional commas are not varied",
+            "DESIGN.md §6 C17"),
+    "C18": (MC, "TLC-enumerated Syntax.tla families (plus layouts and non-parsing mutations): format(format(x)) = format(x) on every input; `format --check` on formatter output",
+            "the C17 families plus token-level mutations that do not parse; every input is formatted twice and the two results must be identical; a seeded sample of outputs goes through `garden format --check`",
+            "idempotence is an equation between two runs of the implementation: the specification contributes the input families",
+            "DESIGN.md §6 C18"),
+    "C19": (MC, "TLC evaluates Ref.tla on generated programs with shadowing and closures; `reftest-rename` at seeded occurrences must change only that identifier and the renamed program must behave as the reference says the original does",
+            "seeded programs x seeded occurrences of local names (definitions and uses): the output differs from the input only in identifier tokens of that name becoming the fresh name, the token under the cursor included, and runs to the reference's output / outcome / value",
+            "which occurrences belong to a definition is judged through behaviour (missed or extra occurrences change output, fail, or change a captured value); LSP equality is C29's",
+            "DESIGN.md §6 C19"),
+    "C20": (MC, "TLC evaluates Ref.tla on generated assignment-free programs; extract-variable / extract-function on seeded pure sub-expressions must give programs that parse and behave as the reference says the original does",
+            "seeded programs that run to completion x seeded side-effect-free sub-expressions x {variable, function}",
+            "targets are literal / operator / collection / constructor / built-in-method expressions; runs of sibling statements are not selected",
+            "DESIGN.md §6 C20"),
+    "C21": (MC, "TLC evaluates Ref.tla on generated programs; wrap-in-dbg at seeded expression spans and add-type-annotation at seeded let names must give programs that parse, gain no check errors and behave as the reference says the original does",
+            "seeded programs x seeded expression spans / let names: standard output, outcome and value equal the reference's; annotations introduce no new `check` errors",
+            "parameters and return types of generated functions are already annotated, so annotations are requested on lets",
+            "DESIGN.md §6 C21"),
+    "C22": (MC, "TLC evaluates Ref.tla on generated programs; inert lint bait is added and `check --fix` is applied repeatedly: every intermediate text must parse and behave as the reference says the original does, and a fixed point must be reached",
+            "seeded programs that run to completion, as generated and with seeded bait (unused literals and lets, duplicated boolean operands, list length comparisons); fixes applied up to 6 rounds",
+            "unused imports and type parameters are not generated; bait is verified inert on the real interpreter before fixing",
+            "DESIGN.md §6 C22"),
     "C23": (MC, "TLC computes the position table of Lexer.tla for enumerated texts (lexer positions must equal it) and judges with PosOK every position recorded from the front end, interpreter, JSON session and go-to-definition",
             "spec->impl: all six position fields of every token, comment and lexer error on every text of <= 3/4 characters from 20 classes and seeded longer texts; impl->spec: every position reported for the repository's Garden files and generated programs, plain, perturbed with multi-line / non-ASCII literals, wide comments, CRLF, and mutated, is validated by TLC against the text's table",
             "positions naming another file (prelude) are not judged; LSP UTF-16 positions belong to C29",
